@@ -246,11 +246,11 @@ PROPS = {
     "C16": {"kind": "cl", "title": "Boudot range proof",
             "level_text": CLTXT + "C16: invariant C16anchored (every part of the square decomposition is certified by a sub-proof tied to a recomputed value); widths 1, 2, 3, 2^8, 2^64, 2^256-1 (thorough 2^1024-1), positions a, a+1, mid, b-1, b, random, three base sets; other bounds / bases / modulus; invariant C16tolerance (toy intervals: only in-range values are acceptable given what the larger-interval proof shows); transplants onto a-1, b+1, a-2^k, b+2^k and a random element; shifted proofs (commitment divided by g^d, larger-interval responses moved accordingly) onto a-1, b+1, a-w, b+w; every leaf +-1; the honest prover outside the interval."},
     "C17": {"kind": "cl", "title": "CL03 proofs do not carry openings",
-            "level_text": CLTXT + "C17: invariant C17noOpenings (the intended formats contain no commitment randomness); the leaf paths of real proofs must equal the specification's format; every (value, randomness) pair is tested against every public base pair and hidden secret, a two-candidate dictionary attack and the recovery of v."},
+            "level_text": CLTXT + "C17: invariant C17noOpenings (the intended formats contain no commitment randomness); the leaf paths of real proofs must equal the specification's format; every (value, randomness) pair is tested against every public base pair and hidden secret, a two-candidate dictionary attack and the recovery of v; implied blindings s - c x of all responses pairwise distinct (also across sub-proofs with different challenges, with and without a trusted commitment); invariant C17split and CLRangeSplit events: the four randomness parts of every range proof decomposition are independent (no product of two proof fields is a function of the hidden value alone)."},
     "C18": {"kind": "cl", "title": "CL03 keys and parameters",
             "level_text": CLTXT + "C18: invariant C18toy (for every pair of safe primes below the bound the accept conditions of random_qr and of the commitment-key bases imply well-formedness); facts about generated keys computed by an independent Miller-Rabin / Jacobi implementation; encodings; random_bits / rand_int."},
     "C19": {"kind": "cl", "title": "CL03 responses mask their secrets",
-            "level_text": CLTXT + "C19: invariant C19masks over the table of blinding lengths for the three suites; for real proofs every response leaf is divided by every recomputable challenge and by every other response and compared with every secret the prover holds."},
+            "level_text": CLTXT + "C19: invariant C19masks over the table of blinding lengths for the three suites; for real proofs every response leaf is divided by every recomputable challenge and by every other response and compared with every secret the prover holds (issuance proofs without and with a trusted commitment, the latter also with a short-randomness commitment of the trusted party); implied blindings pairwise distinct; blinding draws of proofs made on fresh threads pairwise distinct."},
     "C12": {"slices": ["update", "shape_sig"], "slices_thorough": ["update_deep"], "traces": "sig", "tally": ["C12", "C02", "C01"], "title": "Signature update over any history",
             "level_text": MC_TEXT + "slice `update`: every history of up to Depth updates at every position with every new value, with correct and wrong old values, out-of-range positions, then verification against the intended current vector and every earlier vector; updated signature octets equal the reference's B(msgs)/(sk+e)."},
 }
@@ -735,8 +735,8 @@ CL = {
     "C13": {"inv": ["C13toy", "ExportDerivs"], "drivers": ["sig"], "ops": {"CLVerify", "CLSigFacts", "CLDisclose", "CLRoundTrip"}},
     "C14": {"inv": ["C15used"], "drivers": ["blind"], "ops": {"CLIssue", "CLUpdate", "CLLeaf:zkpok"}},
     "C15": {"inv": ["C15used", "ReportLinks"], "drivers": ["pok"], "ops": {"CLPoK", "CLLeaf:spok", "CLFormat:spok", "CLInfoLink"}},
-    "C16": {"inv": ["C16anchored", "C16tolerance"], "drivers": ["boudot"], "ops": {"CLRange", "CLLeaf:range", "CLFormat:range"}},
-    "C17": {"inv": ["C17noOpenings"], "drivers": ["leak", "blind"], "ops": {"CLFormat:zkpok", "CLFormat:spok", "CLOpenings", "CLDictionary", "CLUnblinded", "CLSharedBlinding"}},
+    "C16": {"inv": ["C16anchored", "C16tolerance"], "drivers": ["boudot"], "ops": {"CLRange", "CLLeaf:range", "CLFormat:range", "CLRangeSplit"}},
+    "C17": {"inv": ["C17noOpenings", "C17split"], "drivers": ["leak", "blind", "boudot"], "ops": {"CLFormat:zkpok", "CLFormat:spok", "CLOpenings", "CLDictionary", "CLUnblinded", "CLSharedBlinding", "CLRangeSplit"}},
     "C18": {"inv": ["C18toy"], "drivers": ["keys", "sig"], "ops": {"CLKeyFacts", "CLRandomFacts", "CLRoundTrip"}},
     "C19": {"inv": ["C19masks"], "drivers": ["leak"], "ops": {"CLMask", "CLMaskLens", "CLMaskSummary", "CLUnblinded", "CLSharedBlinding", "CLFresh", "CLPoK"}},
 }
